@@ -314,6 +314,27 @@ PointSourceOK(m, b, e, ct) ==
      IN /\ \A j \in DOMAIN e.pscols : e.pscols[j] \in 1..b.ndofs /\ FxWF(e.psvals[j])
         /\ \E kk \in DOMAIN m.t : VSet(e.pscols) \subseteq VSet(b.edofs[kk]) /\ CellContains(m, e.pts[1], kk, ct[1])
         /\ FxNear(dotp, e.vals[1], TolAt(b, e, 1))
+\* point_source(x) of a VECTOR / TENSOR valued basis returns ONE vector for the ncomp components of the point.  What
+\* the single number point_source(x) . y means is defined by the code as "row 0 of the probing matrix of the single
+\* point", i.e. the FIRST component (component-major rows): its entries are the first components of the local shape
+\* functions of the located cell, nothing else, and its pairing with y is the first component of the local expansion.
+PointSourceVecWF(m, b, e) ==
+  /\ Len(e.pts) = 1 /\ Len(e.cells) = 1 /\ e.cells[1] \in DOMAIN m.t
+  /\ Len(e.phis) = 1 /\ Len(e.phis[1]) = b.ncomp /\ b.ncomp >= 2
+  /\ \A c \in 1..b.ncomp : Len(e.phis[1][c]) = Len(b.edofs[1]) /\ \A i \in DOMAIN e.phis[1][c] : FxWF(e.phis[1][c][i])
+  /\ Len(e.pscols) = Len(e.psvals) /\ \A j \in DOMAIN e.pscols : e.pscols[j] \in 1..b.ndofs /\ FxWF(e.psvals[j])
+  /\ FxWF(e.val)
+PointSourceIsFirstRowOfProbes(m, b, e) ==
+  LET k == e.cells[1]
+      ed == b.edofs[k]
+      tol == TolAt(b, e, 1)
+      entry(d) == FxSum([j \in DOMAIN e.pscols |-> IF e.pscols[j] = d THEN e.psvals[j] ELSE FxZero])
+      first(d) == FxSum([i \in DOMAIN ed |-> IF ed[i] = d THEN e.phis[1][1][i] ELSE FxZero])
+  IN /\ VSet(e.pscols) \subseteq VSet(ed)                                           \* support: the located cell
+     /\ \A d \in VSet(e.pscols) \cup VSet(ed) : FxNear(entry(d), first(d), tol)         \* entries: first components
+     /\ FxNear(FxSum([j \in DOMAIN e.pscols |-> FxMulSmall(e.psvals[j], b.y[e.pscols[j]])]), e.val, tol)
+     /\ FxNear(e.val, FxSum([i \in DOMAIN ed |-> FxMulSmall(e.phis[1][1][i], b.y[ed[i]])]), tol)   \* first component of
+                                                                                                 \* the local expansion
 \* ---------------------------------------------------------------------------
 \* Suite stream (executions of the repository's own tests): generic FLOAT coordinates.  The projection supplies, as
 \* witnesses, the barycentric coordinates lam[simplex][vertex] (Fx, computed exactly from the float data) of a query
